@@ -44,6 +44,7 @@ def shift1d(ctx, rng, idx):
     if not (_finite(r1) and _finite(r2)):
         raise core.Skip("nonfinite rhs")
     fs = _fluxscale(spec.mname, model, spec.prim)
+    fs = [max(a_, float(np.max(np.abs(np.asarray(disc.flux[i], float))))) for i, a_ in enumerate(fs)]
     dx = mesh.length / n
     tag = "%s/%s/%s" % (spec.mname, spec.flux, spec.rname.split("(")[0])
     for i in range(model.neq):
